@@ -38,6 +38,7 @@ import (
 	"strings"
 	"testing"
 
+	"github.com/ChainSafe/gossamer/dot/network"
 	"github.com/ChainSafe/gossamer/dot/network/messages"
 	"github.com/ChainSafe/gossamer/dot/types"
 	"github.com/ChainSafe/gossamer/internal/database"
@@ -140,10 +141,14 @@ type c32Dev struct {
 type c32Spec struct {
 	top, bottom int
 	desc        bool
+	bodyOnly    bool // answer to a body+justification request by hash for block top (no header in it)
 	dev         c32Dev
 }
 
 func (s c32Spec) String() string {
+	if s.bodyOnly {
+		return fmt.Sprintf("body(%d)", s.top)
+	}
 	d := "asc"
 	if s.desc {
 		d = "desc"
@@ -166,8 +171,9 @@ func (s c32Spec) String() string {
 }
 
 type c32Op struct {
-	specs []c32Spec
-	name  string
+	specs    []c32Spec
+	announce int // > 0: not a Process call but OnBlockAnnounce(block announce of this node)
+	name     string
 }
 
 func (o c32Op) Name() string { return o.name }
@@ -204,6 +210,11 @@ type c32Resp struct {
 func (t *c32Tree) materialise(s c32Spec, who peer.ID) *c32Resp {
 	r := &c32Resp{spec: s, who: who, linked: true, statedOK: true, hasHeaders: true}
 	if s.dev.kind == "empty" || s.dev.kind == "incomplete" {
+		return r
+	}
+	if s.bodyOnly {
+		// no header requested, none sent: the statement's rejection clause does not apply
+		r.bds = []*types.BlockData{{Hash: t.hash[s.top], Body: t.body[s.top]}}
 		return r
 	}
 	var nodes []int
@@ -266,6 +277,12 @@ func (r *c32Resp) result() *SyncTaskResult {
 			request: messages.NewBlockRequest(*messages.NewFromBlock(uint(1)), 1, messages.BootstrapRequestData, messages.Ascending)}
 	}
 	wire := append([]*types.BlockData{}, r.bds...)
+	if s.bodyOnly {
+		return &SyncTaskResult{who: r.who, completed: true,
+			request: messages.NewBlockRequest(*messages.NewFromBlock(r.bds[0].Hash), 1,
+				messages.RequestedDataBody+messages.RequestedDataJustification, messages.Ascending),
+			response: &messages.BlockResponseMessage{BlockData: wire}}
+	}
 	var req *messages.BlockRequestMessage
 	n := uint32(len(wire))
 	if n == 0 {
@@ -295,6 +312,9 @@ func (t *c32Tree) honestSpecs() []c32Spec {
 			out = append(out, c32Spec{top: top, bottom: bottom})
 			out = append(out, c32Spec{top: top, bottom: bottom, desc: true})
 		}
+	}
+	for v := 1; v < n; v++ {
+		out = append(out, c32Spec{top: v, bottom: v, bodyOnly: true})
 	}
 	return out
 }
@@ -524,6 +544,19 @@ func c32Fresh(t *c32Tree) *c32State {
 func c32Apply(st *c32State, op c32Op) string {
 	st.calls++
 	st.pending = st.pending[:0]
+	if op.announce > 0 {
+		h := st.tree.hdr[op.announce]
+		var aerr error
+		panicked, msg := verifmc.Guard(func() {
+			_, aerr = st.f.OnBlockAnnounce(peer.ID(fmt.Sprintf("announcer-%d", st.calls)), &network.BlockAnnounceMessage{
+				ParentHash: h.ParentHash, Number: h.Number, StateRoot: h.StateRoot, ExtrinsicsRoot: h.ExtrinsicsRoot, Digest: h.Digest})
+		})
+		if panicked {
+			return "sig=OnBlockAnnounce:panic:" + c32PanicSite(msg) + "|" + msg
+		}
+		st.pending = append(st.pending, fmt.Sprintf("announce incomplete=%d queued=%d err=%t", len(st.f.unreadyBlocks.incompleteBlocks), st.f.requestQueue.Len(), aerr != nil))
+		return ""
+	}
 	var results []*SyncTaskResult
 	var resps []*c32Resp
 	for k, sp := range op.specs {
@@ -669,6 +702,9 @@ func c32Batches(t *c32Tree, devAllowed bool, maxBatch int) []verifmc.Op {
 		}
 	}
 	rec(nil)
+	for v := 1; v < len(t.parent); v++ {
+		ops = append(ops, c32Op{announce: v, name: fmt.Sprintf("Announce[%d]", v)})
+	}
 	if devAllowed {
 		for _, d := range t.deviatedSpecs() {
 			ops = append(ops, c32MkOp(d))
@@ -678,8 +714,8 @@ func c32Batches(t *c32Tree, devAllowed bool, maxBatch int) []verifmc.Op {
 				ops = append(ops, c32MkOp(dd))
 			}
 			for _, h := range honest {
-				if h.desc {
-					continue // a deviated response is combined with ascending honest ones only
+				if h.desc || h.bodyOnly {
+					continue // a deviated response is combined with ascending honest chain responses only
 				}
 				ops = append(ops, c32MkOp(d, h), c32MkOp(h, d))
 			}
@@ -699,7 +735,7 @@ func TestVerif_C32(t *testing.T) {
 	}
 	r.Rule = fmt.Sprintf("for every rooted tree shape with the given number of nodes (genesis = finalised root) and every (nodes, depth, batch) in %v: BFS over histories of <= depth Process calls on a fresh "+
 		"FullSyncStrategy with the real blockImporter; one call = a batch of 1..batch responses; response alphabet = every contiguous segment of every "+
-		"root-to-leaf path as ascending or descending response, plus (at most one per history: alone as ascending or descending response, or ascending and paired with an ascending honest response in either order) "+
+		"root-to-leaf path as ascending or descending response and a body-only response (answer to a body request by hash) per block, a call may also be OnBlockAnnounce(block) for any block (creates an incomplete block + body request), plus (at most one per history: alone as ascending or descending response, or ascending and paired with an ascending honest response in either order) "+
 		"every deviation-1 response: forged stated Hash (garbage / any other block's hash) at any position, re-linked parent, number +-1, missing header, "+
 		"missing body, glued uncle+child pair, empty response, uncompleted task; states merged on (known headers, parked fragments incl. stated/real hashes, incomplete blocks, request queue, deviation used)", runs)
 	totalShapes := 0
